@@ -239,6 +239,23 @@ pub fn plan(quick: bool) -> Plan {
     } else {
         parts.push(Part::Bfs(Box::new(scenario("c04-churn", false)), lim(8, 3_000_000, 600.0)));
         parts.push(Part::Bfs(Box::new(scenario("c04-churn-multiprefix", true)), lim(6, 1_000_000, 300.0)));
+        // E-BIND: every history of depth <= 2 of this scenario also over real TCP
+        // against the production binary built without the verification cfg
+        parts.push(Part::Custom(
+            "bind:c04-churn".into(),
+            Box::new(|| {
+                let scn = scenario("c04-churn", false);
+                let mut pre = vec![];
+                for p in &scn.parts {
+                    pre.push(Act::Connect(p.slot));
+                    pre.push(Act::Send(p.slot, format!("NICK {}", p.nick)));
+                    pre.push(Act::Send(p.slot, format!("USER {} 8 * :Real {}", p.user, p.user)));
+                }
+                let (bin, dir) = crate::props::bind_paths();
+                let cfg = scn.cfg.clone();
+                crate::bind::run_bind("bind:c04-churn", &scn, &cfg, &pre, 2, 2000, &bin, &dir)
+            }),
+        ));
     }
     Plan {
         property: "C04".into(),
